@@ -23,7 +23,7 @@ CALL2PRIM = {"Int8": "i8", "Int16": "i16", "Int32": "i32", "Int64": "i64", "UInt
              "Double": "f64", "Boolean": "bool", "Position": "pos"}
 CTYPE_W = {"int8_t": 1, "int16_t": 2, "int32_t": 4, "int64_t": 8, "uint8_t": 1, "uint16_t": 2, "uint32_t": 4,
            "uint64_t": 8, "char": 1, "size_t": 8, "float": 4, "double": 8, "bool": 1}
-FLAGS = ["checkAfterRead", "versionOr", "indexChecked", "lengthChecked", "valueStrFresh"]
+FLAGS = ["checkAfterRead", "versionOr", "indexChecked", "lengthChecked", "valueStrFresh", "valueTypeLate"]
 
 
 # --------------------------------------------------------------------------------------------
@@ -111,6 +111,14 @@ def extract(repo=None):
     if not m:
         raise CheckError("translator: creation of the loaded string value not recognised")
     flags["valueStrFresh"] = (m.group(2) or "").strip() == ""
+    # the kind read from the archive goes into a local; `type` is None while the payload is read and set at the end
+    m = re.search(r"arc\.ArchiveEnum\(\s*(\w+)\s*\)", ab)
+    if not m:
+        raise CheckError("translator: ArchiveEnum of the variable kind not recognised")
+    loc = m.group(1)
+    flags["valueTypeLate"] = loc != "type" and bool(re.search(
+        r"Loading\(\)\s*\)\s*\{?\s*type\s*=\s*variableType_e::None\s*;", ab)) and bool(
+        re.search(r"switch\s*\(\s*%s\s*\)" % loc, ab)) and bool(re.search(r"\}\s*type\s*=\s*%s\s*;\s*$" % loc, ab.strip()))
     m = re.search(r"enum\s+class\s+variableType_e\s*\{(.*?)\}", strip_cpp_comments(
         open(os.path.join(repo, "include", "morfuse", "Script", "ScriptVariable.h")).read()), re.S)
     if not m:
@@ -143,13 +151,15 @@ def gen_text(d):
         "def lengthChecked : Bool := %s\n"
         "/-- the string of a loaded String value starts empty (`new str`), not as the text of a number (`new str(4)`) -/\n"
         "def valueStrFresh : Bool := %s\n"
+        "/-- a loaded variable receives its kind only after its payload has been read -/\n"
+        "def valueTypeLate : Bool := %s\n"
         "/-- `enum class variableType_e` in declaration order -/\n"
         "def varTypeNames : List String := [%s]\n"
         "end Morfuse.Gen.Archive\n" % (
             ", ".join('"%s"' % n for n in d["tagNames"]), d["version"], d["nullPointer"],
             ", ".join('("%s", "%s", %d)' % t for t in d["primTable"]),
             b(d["flags"]["checkAfterRead"]), b(d["flags"]["versionOr"]), b(d["flags"]["indexChecked"]),
-            b(d["flags"]["lengthChecked"]), b(d["flags"]["valueStrFresh"]),
+            b(d["flags"]["lengthChecked"]), b(d["flags"]["valueStrFresh"]), b(d["flags"]["valueTypeLate"]),
             ", ".join('"%s"' % n for n in d["varTypeNames"])))
 
 
